@@ -147,6 +147,16 @@ LineCases2 ==
         ls \in {<<x, y>> : x \in LineKinds, y \in LineKinds} \cup {<<x, y, z>> : x \in {<<"a">>, <<>>}, y \in LineKinds, z \in {<<"a">>, <<" ">>}},
         sep \in {<<"N">>, <<"B", "n">>}}
 
+\* sequences of the pieces that matter to the line rules, whatever MaxLen: the escaped
+\* escape at the very start, after a newline, after a split; a lone backslash; and "E" -
+\* the four characters & l t ; written literally (text that LOOKS like an entity reference
+\* is text: in a CDATA section the author writes it as it stands)
+Pieces == {<<"B", "B", "n">>, <<"B", "n">>, <<"N">>, <<"a">>, <<"B">>, <<"E">>}
+PieceSeqs == UNION {[1..k -> Pieces] : k \in 1..3}
+LineCases3 ==
+    {[fam |-> "lines", carrier |-> car, s |-> Concat(ps), lines |-> Lines(Concat(ps))] :
+        car \in {"text-attr", "content", "cdata-content", "text-element"}, ps \in PieceSeqs}
+
 RECURSIVE Join(_)
 Join(ls) == IF Len(ls) = 1 THEN ls[1] ELSE ls[1] \o <<"N">> \o Join(Tail(ls))
 LinesOK ==
@@ -176,7 +186,7 @@ RootCases ==
       passthrough |-> n, rootok |-> TRUE] :
         p \in Prologs, n \in BOOLEAN, ra \in (IF Len(ks) <= 1 THEN RootAttrs ELSE {"none", "xlink"}), rf \in RootForms(ks)} : ks \in KidLists}
 
-Cases == CASE Family = "wf" -> WfCases [] Family = "lines" -> LineCases \cup LineCases2 [] Family = "root" -> RootCases [] OTHER -> {}
+Cases == CASE Family = "wf" -> WfCases [] Family = "lines" -> LineCases \cup LineCases2 \cup LineCases3 [] Family = "root" -> RootCases [] OTHER -> {}
 Init == c \in Cases
 Next == UNCHANGED c
 Spec == Init /\ [][Next]_c
